@@ -22,6 +22,9 @@ struct Plan {
     budgets: Vec<usize>,
     chunk: usize,
     desc: String,
+    /// when the cursor reaches the end of the buffer, first make one call with out_pos == len
+    /// (an empty window: nothing may be written) before wrapping / stopping
+    probe_end: bool,
     directed: bool,
 }
 
@@ -78,6 +81,7 @@ fn monitor(rep: &mut Report, pl: &Plan) {
     let mut d = DecompressorOxide::new();
     let mut produced = 0usize;
     let mut out_pos = 0usize;
+    let mut end_probed = false;
     let mut in_pos = 0usize;
     let mut avail_end = pl.chunk.min(pl.bytes.len());
     let mut call = 0usize;
@@ -180,8 +184,18 @@ fn monitor(rep: &mut Report, pl: &Plan) {
         in_pos += c;
         produced += w;
         out_pos += w;
+        if out_pos >= l && pl.probe_end && !end_probed && st != TINFLStatus::Done {
+            // keep the unwrapped cursor for one call: the granted window [len, len) is empty
+            end_probed = true;
+            rep.count("empty_window_probe_calls");
+            continue;
+        }
+        if out_pos < l {
+            end_probed = false;
+        }
         if !flat && out_pos >= l {
             out_pos = 0;
+            end_probed = false;
         }
         match st {
             TINFLStatus::Done => {
@@ -284,17 +298,17 @@ pub fn run(ctx: &Ctx, rep: &mut Report) {
                 }
                 let edge = edge as usize;
                 // (a) budget edge, flat, big slice
-                monitor(rep, &Plan { bytes: g.bytes.clone(), plain: g.plain.clone(), zlib: zl, ring: None, slice_len: g.plain.len() + 8, budgets: vec![edge, usize::MAX], chunk: usize::MAX / 2, desc: format!("directed len {} dist {} at {} budget edge {:+}", len, dist, p, delta), directed: true });
+                monitor(rep, &Plan { bytes: g.bytes.clone(), plain: g.plain.clone(), zlib: zl, ring: None, slice_len: g.plain.len() + 8, budgets: vec![edge, usize::MAX], chunk: usize::MAX / 2, desc: format!("directed len {} dist {} at {} budget edge {:+}", len, dist, p, delta), directed: true, probe_end: true });
                 // (b) slice end, flat
                 if edge <= g.plain.len() {
-                    monitor(rep, &Plan { bytes: g.bytes.clone(), plain: g.plain.clone(), zlib: zl, ring: None, slice_len: edge, budgets: vec![usize::MAX], chunk: usize::MAX / 2, desc: format!("directed len {} dist {} at {} slice end {:+}", len, dist, p, delta), directed: true });
+                    monitor(rep, &Plan { bytes: g.bytes.clone(), plain: g.plain.clone(), zlib: zl, ring: None, slice_len: edge, budgets: vec![usize::MAX], chunk: usize::MAX / 2, desc: format!("directed len {} dist {} at {} slice end {:+}", len, dist, p, delta), directed: true, probe_end: true });
                 }
                 // (c) ring: budget edge; ring end when the match sits near 32768
                 let ring = 32768usize;
-                monitor(rep, &Plan { bytes: g.bytes.clone(), plain: g.plain.clone(), zlib: zl, ring: Some(ring), slice_len: ring, budgets: if edge > ring { vec![usize::MAX, edge - ring, 3, usize::MAX] } else { vec![edge, 3, usize::MAX] }, chunk: usize::MAX / 2, desc: format!("directed len {} dist {} at {} ring budget edge {:+}", len, dist, p, delta), directed: true });
+                monitor(rep, &Plan { bytes: g.bytes.clone(), plain: g.plain.clone(), zlib: zl, ring: Some(ring), slice_len: ring, budgets: if edge > ring { vec![usize::MAX, edge - ring, 3, usize::MAX] } else { vec![edge, 3, usize::MAX] }, chunk: usize::MAX / 2, desc: format!("directed len {} dist {} at {} ring budget edge {:+}", len, dist, p, delta), directed: true, probe_end: true });
                 // (d) two-step approach: stop 1..3 bytes before, then tiny budgets across the edge
                 let before = edge.saturating_sub(1 + rng.below(3)).max(1);
-                monitor(rep, &Plan { bytes: g.bytes.clone(), plain: g.plain.clone(), zlib: zl, ring: if rng.bool() { Some(ring) } else { None }, slice_len: if g.plain.len() + 8 > ring { 65536 } else { ring }, budgets: vec![before, 1, 2, 1, 259, usize::MAX], chunk: 1 + rng.below(64), desc: format!("directed len {} dist {} at {} stepping over edge {:+}", len, dist, p, delta), directed: true });
+                monitor(rep, &Plan { bytes: g.bytes.clone(), plain: g.plain.clone(), zlib: zl, ring: if rng.bool() { Some(ring) } else { None }, slice_len: if g.plain.len() + 8 > ring { 65536 } else { ring }, budgets: vec![before, 1, 2, 1, 259, usize::MAX], chunk: 1 + rng.below(64), desc: format!("directed len {} dist {} at {} stepping over edge {:+}", len, dist, p, delta), directed: true, probe_end: true });
             }
         } else if k < n_directed * reps + n_random {
             let zl = rng.bool();
@@ -317,7 +331,7 @@ pub fn run(ctx: &Ctx, rep: &mut Report) {
                 let budgets: Vec<usize> = (0..nb).map(|_| if big { *rng.pick(&[64usize, 257, 258, 259, 260, 1000, 32768, usize::MAX]) } else { *rng.pick(&[0usize, 1, 2, 3, 4, 5, 64, 257, 258, 259, 260, 1000, 32768, usize::MAX]) }).collect();
                 let budgets = if budgets.iter().all(|&b| b == 0) { vec![1] } else { budgets };
                 let chunk = if big { *rng.pick(&[13usize, 14, 15, 100, usize::MAX / 2]) } else { *rng.pick(&[1usize, 2, 13, 14, 15, 100, usize::MAX / 2]) };
-                monitor(rep, &Plan { bytes: g.bytes.clone(), plain: g.plain.clone(), zlib: zl, ring, slice_len, budgets, chunk, desc: "random".into(), directed: false });
+                monitor(rep, &Plan { bytes: g.bytes.clone(), plain: g.plain.clone(), zlib: zl, ring, slice_len, budgets, chunk, desc: "random".into(), directed: false, probe_end: rng.bool() });
             }
         } else {
             vector_limits(rep, &mut rng);
